@@ -231,3 +231,21 @@ Example process_safe_example :
   should_bulk 0 [] = true /\ should_bulk 32 (repeat 5 63) = false /\ should_bulk 32 (repeat 5 64) = true /\
   should_bulk U64MAX (repeat 5 64) = false.
 Proof. vm_compute. repeat split. Qed.
+
+(* with the default threshold the loop is the 32-item prefix scan the first C16 theorems were stated with
+   (take_safe BULK_FREE_NUM): reclaim_safe / reclaim_unsafe_refuted speak about the same function *)
+Lemma psi_take_safe m thr : forall fuel n p l,
+  (1 <= n)%nat -> p + N.of_nat n = thr -> (length l <= fuel)%nat ->
+  psi fuel thr m p l = take_safe n m l.
+Proof.
+  induction fuel as [|fu IH]; intros n p l N1 E L.
+  - destruct l; [|cbn in L; lia]. destruct n; reflexivity.
+  - destruct l as [|a r]; [destruct n; reflexivity|].
+    destruct n as [|n]; [lia|]. cbn [psi take_safe]. destruct (a <? m); [|reflexivity].
+    destruct (thr <=? p + 1) eqn:T.
+    + assert (n = 0%nat) by lia. subst n. cbn [take_safe]. destruct r; reflexivity.
+    + cbn in L. rewrite (IH n (p + 1) r); [reflexivity|lia|lia|lia].
+Qed.
+Lemma process_safe_default_proof :
+  forall m l, process_safe BULK_FREE_N m l = take_safe BULK_FREE_NUM m l.
+Proof. intros. apply psi_take_safe; [cbv; lia|reflexivity|lia]. Qed.
